@@ -60,14 +60,14 @@ void mem_install_handlers();
 typedef bool (*segv_hook_t)(int sig, siginfo_t *si, void *uc);
 extern segv_hook_t g_segv_hook;
 
-#define GUARDED(gc, stmt)                                                                          \
+#define GUARDED(gc, ...)                                                                          \
         ({                                                                                         \
                 int _faulted = 0;                                                                  \
                 GuardCtx *_prev = t_guard;                                                         \
                 t_guard = &(gc);                                                                   \
                 if (sigsetjmp((gc).jb, 0) == 0) {                                                  \
                         (gc).armed = 1;                                                            \
-                        stmt;                                                                      \
+                        __VA_ARGS__;                                                               \
                         (gc).armed = 0;                                                            \
                 } else {                                                                           \
                         (gc).armed = 0;                                                            \
